@@ -792,11 +792,18 @@ def process_commandline(out: OutputBuffer, args: List[str]) -> 'AuditConf':  # p
 
     parser = argparse.ArgumentParser(description="# {} {}, https://github.com/jtesta/ssh-audit".format(os.path.basename(sys.argv[0]), VERSION), allow_abbrev=False)
 
+    class IPVersionAction(argparse.Action):  # pylint: disable=too-few-public-methods
+        '''Records the -4/-6 options in the order they were given, since that is their order of precedence.'''
+
+        def __call__(self, parser: argparse.ArgumentParser, namespace: argparse.Namespace, values: Any, option_string: Optional[str] = None) -> None:
+            setattr(namespace, self.dest, True)
+            namespace.ip_version_order = getattr(namespace, 'ip_version_order', []) + [self.dest]
+
     # Add short options to the parser
     parser.add_argument("-1", "--ssh1", action="store_true", dest="ssh1", default=False, help="force ssh version 1 only")
     parser.add_argument("-2", "--ssh2", action="store_true", dest="ssh2", default=False, help="force ssh version 2 only")
-    parser.add_argument("-4", "--ipv4", action="store_true", dest="ipv4", default=False, help="enable IPv4 (order of precedence)")
-    parser.add_argument("-6", "--ipv6", action="store_true", dest="ipv6", default=False, help="enable IPv6 (order of precedence)")
+    parser.add_argument("-4", "--ipv4", action=IPVersionAction, nargs=0, dest="ipv4", default=False, help="enable IPv4 (order of precedence)")
+    parser.add_argument("-6", "--ipv6", action=IPVersionAction, nargs=0, dest="ipv6", default=False, help="enable IPv6 (order of precedence)")
     parser.add_argument("-b", "--batch", action="store_true", dest="batch", default=False, help="batch output")
     parser.add_argument("-c", "--client-audit", action="store_true", dest="client_audit", default=False, help="starts a server on port 2222 to audit client software config (use -p to change port; use -t to change timeout)")
     parser.add_argument("-d", "--debug", action="store_true", dest="debug", default=False, help="enable debugging output")
@@ -834,8 +841,9 @@ def process_commandline(out: OutputBuffer, args: List[str]) -> 'AuditConf':  # p
 
         # Set simple flags.
         aconf.client_audit = argument.client_audit
-        aconf.ipv4 = argument.ipv4
-        aconf.ipv6 = argument.ipv6
+        for ip_version_option in getattr(argument, 'ip_version_order', []):  # In command-line order: the first one given is preferred.
+            if not getattr(aconf, ip_version_option):
+                setattr(aconf, ip_version_option, True)
         aconf.level = argument.level
         aconf.list_policies = argument.list_policies
         aconf.manual = argument.manual
